@@ -773,6 +773,8 @@ func TestC06(t *testing.T) {
 	c.srcByteInputs(p, extraBytes(srcDict().SQLBytes, gen.AlphaSQL), gen.CoreSQL, 2, sqlHostile, judge)
 	p = c.rec.NewPart("source_dictionary", fmt.Sprintf("%d lead constructs (closed and open literals of every kind, numbers, words, punctuation, comments) x blank? x W x blank? x every tail of 0..2 (thorough 3) symbols over %q, for each word W (as written, upper, lower) that occurs as a literal in the SQLi source files and is not a table key", len(sqlDictLeads), sqlDictTail), false, true, "")
 	c.sqlDictInputs(p, pick(2, 3), judge)
+	p = c.rec.NewPart("source_dictionary_near_miss", fmt.Sprintf("the source-dictionary words with exactly one byte replaced by its neighbour under the case bit (b^0x20, e.g. '_' -> 0x7f, single-letter case flips) or the high bit (b^0x80), behind the same %d lead constructs x blank? x W x blank? x every tail of 0..1 symbols", len(sqlDictLeads)), false, true, "")
+	c.sqlNearMissInputs(p, judge)
 	p = c.rec.NewPart("rapid_fragments", "pgregory.net/rapid over the SQL fragment grammar (fragments + arbitrary bytes, drawn separators, tail-repeat)", true, false, "")
 	g := gen.SQLInput()
 	c.Rapid(p, 8, pick(25000, 600000), func(rt *rapid.T, sh int) ev.Case {
